@@ -1,12 +1,15 @@
 // C17 harness: "a parsed statement survives the wire unchanged".
 //
 // part sql   : every derivation of the query grammar within the bounds of gen_sql.go, rendered to text, parsed by the
-//              real sql.Parse (twice), sent through exactly the calls the root and the leaf use
-//              (stmt.Query.MarshalJSON -> stmt.Query{}.UnmarshalJSON) as parsed and after the planner filled
-//              StorageInterval/IntervalRatio/Interval, and expression by expression through stmt.Marshal/Unmarshal.
+//
+//	real sql.Parse (twice), sent through exactly the calls the root and the leaf use
+//	(stmt.Query.MarshalJSON -> stmt.Query{}.UnmarshalJSON) as parsed and after the planner filled
+//	StorageInterval/IntervalRatio/Interval, and expression by expression through stmt.Marshal/Unmarshal.
+//
 // part model : every expression tree of the statement model (all kinds of sql/stmt/expr.go under each other, shapes the
-//              parser never emits included) within the bounds of gen_tree.go through stmt.Marshal/Unmarshal and, embedded
-//              in a stmt.Query, through the statement-level calls; plus the product of per-field alphabets of stmt.Query.
+//
+//	parser never emits included) within the bounds of gen_tree.go through stmt.Marshal/Unmarshal and, embedded
+//	in a stmt.Query, through the statement-level calls; plus the product of per-field alphabets of stmt.Query.
 //
 // Oracle (nothing more than the statement): unmarshal(marshal(x)) is reflect.DeepEqual to x modulo nil-vs-empty slices,
 // a second marshal is byte-identical, two parses of one text are equal (modulo bounds read from the clock).
@@ -16,7 +19,9 @@ import (
 	"fmt"
 	"hash/fnv"
 	"os"
+	"runtime/pprof"
 	"strings"
+	"time"
 
 	"go.uber.org/zap/zapcore"
 
@@ -35,6 +40,12 @@ func main() {
 		os.Stdout = dn
 	}
 	c := &checker{rep: rep}
+	if pf := os.Getenv("C17_CPUPROFILE"); pf != "" { // diagnostics for harness authors
+		if fh, err := os.Create(pf); err == nil {
+			_ = pprof.StartCPUProfile(fh)
+			defer pprof.StopCPUProfile()
+		}
+	}
 
 	if f.Replay != "" {
 		var k kase
@@ -75,6 +86,8 @@ func (c *checker) runCase(k *kase) {
 	}
 }
 
+var countOnly = os.Getenv("C17_COUNT_ONLY") != "" // diagnostics: size of the space without running it
+
 func runSQLPart(f *vevid.Flags, c *checker) {
 	rep := c.rep
 	rep.Rule = "every text derivable within the stated per-clause bounds (families select-expr, select-list, orderby-expr, where, having, tail, from, cross, odd); texts are de-duplicated by hash (an ambiguous flat text such as f+g*f is one case) and sharded by that hash; non-trivial = accepted statement containing an expression nested >=2 deep; distinct = distinct text"
@@ -105,7 +118,12 @@ func runSQLPart(f *vevid.Flags, c *checker) {
 			top = top[:i]
 		}
 		rep.Count("texts/"+top, 1)
+		if countOnly {
+			return true
+		}
+		t0 := time.Now()
 		c.runSQL(&kase{Kind: "sql", Fam: fam, SQL: text, StartAbs: sa, EndAbs: ea})
+		rep.Count("diag_us/"+top, time.Since(t0).Microseconds()) // diagnostic only, never an oracle
 		return true
 	})
 	_ = stopped
